@@ -10,13 +10,20 @@
 //
 // Families (sync committee messages; clusters whose threshold differs from ceil(2n/3) included):
 //
-//	exact:     honest partials over one root arrive one by one; the object must reach the beacon node
-//	           once k matching partials have arrived (not later), no aggregation of honest matching
-//	           partials may fail, and what arrives verifies under the group key.
-//	crossfork: one Byzantine share (f >= 1) first sends a partial that IS valid under its public share
-//	           for the same duty and block root but claims a slot in an older fork (other signing
-//	           domain, same MessageRoot); then k-1 honest partials.  Whatever reaches the beacon node
-//	           must verify under the group key.
+//		exact:     honest partials over one root arrive one by one; the object must reach the beacon node
+//		           once k matching partials have arrived (not later), no aggregation of honest matching
+//		           partials may fail, and what arrives verifies under the group key.
+//		crossfork: one Byzantine share (f >= 1) first sends a partial that IS valid under its public share
+//		           for the same duty and block root but claims a slot in an older fork (other signing
+//		           domain, same MessageRoot); then k-1 honest partials.  Whatever reaches the beacon node
+//		           must verify under the group key.
+//
+//	  shareidx:  the node is built with the REAL libp2p ParSigEx (no transport hook), so peer partials pass the
+//	             verifier wireCoreWorkflow builds from ITS OWN public-share maps; a peer host sends partials with
+//	             share index 0, n+1 and -1 carrying the validator's (public) group signature or another share's
+//	             signature, then one honest control partial.  An out-of-range index must never reach the store
+//	             (observed positively on the store's own metric core_parsigdb_store{peer_idx}), and nothing may be
+//	             published with fewer than k honest partials.
 //
 // Monitor = the C01 monitor on the beacon mock: every submitted object verifies under the validator's
 // group public key; one signing root per duty and validator.
@@ -38,13 +45,18 @@ import (
 
 	"github.com/attestantio/go-eth2-client/spec/altair"
 	eth2p0 "github.com/attestantio/go-eth2-client/spec/phase0"
+	"github.com/libp2p/go-libp2p"
+	"github.com/libp2p/go-libp2p/core/crypto"
+	"github.com/libp2p/go-libp2p/core/peer"
 
 	"github.com/obolnetwork/charon/app/eth2wrap"
 	"github.com/obolnetwork/charon/app/lifecycle"
+	"github.com/obolnetwork/charon/app/promauto"
 	"github.com/obolnetwork/charon/app/sse"
 	"github.com/obolnetwork/charon/cluster"
 	"github.com/obolnetwork/charon/core"
 	"github.com/obolnetwork/charon/core/consensus"
+	pbv1 "github.com/obolnetwork/charon/core/corepb/v1"
 	"github.com/obolnetwork/charon/core/parsigex"
 	"github.com/obolnetwork/charon/eth2util/signing"
 	"github.com/obolnetwork/charon/p2p"
@@ -170,6 +182,9 @@ func runVerifNode(t *testing.T, sp VerifSpec) (res VerifRun) {
 		ValidatorAPIAddr: testutil.AvailableAddr(t).String(),
 		TestConfig:       TestConfig{ParSigExFunc: func() core.ParSigEx { return psx }},
 	}
+	if sp.Kind == "shareidx" {
+		conf.TestConfig.ParSigExFunc = nil // the real parsigex.NewParSigEx with the verifier and gater built by app.go
+	}
 	peerIDs, err := lock.PeerIDs()
 	must(err)
 	p2pNode := testutil.CreateHostWithIdentity(t, testutil.AvailableAddr(t), p2pKeys[0])
@@ -259,6 +274,107 @@ func runVerifNode(t *testing.T, sp VerifSpec) (res VerifRun) {
 			logf("honest share %d: accepted=%v store err=%v", i+1, ok, err)
 		}
 		waitBN(time.Second)
+	case "shareidx":
+		// storeCount reads the store's own histogram: how many partials with this 0-based peer index reached MemDB.store
+		storeCount := func(peerIdx int) uint64 {
+			reg, err := promauto.NewRegistry(nil)
+			must(err)
+			mfs, err := reg.Gather()
+			must(err)
+			var n uint64
+			for _, mf := range mfs {
+				if mf.GetName() != "core_parsigdb_store" {
+					continue
+				}
+				for _, m := range mf.GetMetric() {
+					duty, idx := "", ""
+					for _, l := range m.GetLabel() {
+						if l.GetName() == "duty" {
+							duty = l.GetValue()
+						}
+						if l.GetName() == "peer_idx" {
+							idx = l.GetValue()
+						}
+					}
+					if duty == "sync_message" && idx == strconv.Itoa(peerIdx) {
+						n += m.GetHistogram().GetSampleCount()
+					}
+				}
+			}
+
+			return n
+		}
+		peerKey, err := crypto.UnmarshalSecp256k1PrivateKey(p2pKeys[1].Serialize())
+		must(err)
+		sender, err := libp2p.New(libp2p.Identity(peerKey), libp2p.ListenAddrStrings("/ip4/127.0.0.1/tcp/0"))
+		must(err)
+		defer sender.Close()
+		must(sender.Connect(ctx, peer.AddrInfo{ID: p2pNode.ID(), Addrs: p2pNode.Addrs()}))
+		send := func(data core.ParSignedData) {
+			pb, err := core.ParSignedDataSetToProto(core.ParSignedDataSet{corePubkey: data})
+			must(err)
+			msg := &pbv1.ParSigExMsg{Duty: core.DutyToProto(duty), DataSet: pb}
+			var serr error
+			for i := 0; i < 100; i++ { // until the handler is registered
+				if serr = p2p.Send(ctx, sender, parsigex.Protocols()[0], p2pNode.ID(), msg); serr == nil {
+					return
+				}
+				time.Sleep(50 * time.Millisecond)
+			}
+			must(serr)
+		}
+		withIdx := func(p core.ParSignedData, idx int) core.ParSignedData { p.ShareIdx = idx; return p }
+		// the validator's group signature over the honest message: public once the duty was performed anywhere
+		parts := map[int]tbls.Signature{}
+		for i := 1; i <= sp.K; i++ {
+			sig, err := tblsconv.SigFromCore(partial(i, dutySlot, blockRoot).Signature())
+			must(err)
+			parts[i] = sig
+		}
+		groupSig, err := tbls.ThresholdAggregate(parts)
+		must(err)
+		groupMsg := core.NewPartialSignedSyncMessage(&altair.SyncCommitteeMessage{
+			Slot: eth2p0.Slot(dutySlot), BeaconBlockRoot: blockRoot, ValidatorIndex: 1, Signature: eth2p0.BLSSignature(groupSig)}, 0)
+		before := map[int]uint64{}
+		bad := []int{0, sp.N + 1, -1}
+		for _, idx := range bad {
+			before[idx] = storeCount(idx - 1)
+		}
+		honestBefore := map[int]uint64{}
+		for _, i := range order[:sp.K-1] {
+			honestBefore[i] = storeCount(i)
+		}
+		// k-1 honest partials first, so that one more counted entry would complete a threshold set
+		for _, i := range order[:sp.K-1] {
+			send(partial(i+1, dutySlot, blockRoot))
+		}
+		for _, idx := range bad {
+			send(withIdx(groupMsg, idx))                        // (a) the group signature under an out-of-range index
+			send(withIdx(partial(2, dutySlot, blockRoot), idx)) // (b) another share's signature under it
+		}
+		// the honest in-range partials must get through the real parsigex (else the run shows nothing)
+		seen := false
+		for n := 0; n < 100 && !seen; n++ {
+			time.Sleep(50 * time.Millisecond * verifScale())
+			seen = true
+			for _, i := range order[:sp.K-1] {
+				if storeCount(i) == honestBefore[i] {
+					seen = false
+				}
+			}
+		}
+		if !seen {
+			panic("inconclusive: no honest partial reached the store through the real parsigex")
+		}
+		time.Sleep(500 * time.Millisecond * verifScale())
+		for _, idx := range bad {
+			if d := storeCount(idx-1) - before[idx]; d > 0 {
+				hit("out-of-range-share-index-stored", "%d-of-%d: %d partial signature(s) with share index %d (valid: 1..%d) sent by a peer passed the verifier built by wireCoreWorkflow and reached the partial signature store", sp.K, sp.N, d, idx, sp.N)
+			}
+		}
+		if waitBN(300*time.Millisecond) || count() > 0 {
+			hit("published-below-threshold", "%d-of-%d: an object reached the beacon node with only %d honest partial signatures delivered", sp.K, sp.N, sp.K-1)
+		}
 	default: // exact
 		for _, i := range order {
 			ok, err := receive(duty, partial(i+1, dutySlot, blockRoot))
@@ -333,6 +449,9 @@ func TestVerifC01App(t *testing.T) {
 			specs = append(specs, VerifSpec{ID: len(specs), Family: "appnode", N: sh[0], K: sh[1], Kind: "exact", Seed: seed + len(specs)})
 			if (sh[0]-1)/3 >= 1 && sh[1] >= 2 {
 				specs = append(specs, VerifSpec{ID: len(specs), Family: "appnode", N: sh[0], K: sh[1], Kind: "crossfork", Seed: seed + len(specs)})
+			}
+			if sh[1] == 3 || (os.Getenv("VERIF_TIER") == "thorough" && sh[1] >= 2) {
+				specs = append(specs, VerifSpec{ID: len(specs), Family: "appnode", N: sh[0], K: sh[1], Kind: "shareidx", Seed: seed + len(specs)})
 			}
 		}
 	}
